@@ -15,6 +15,7 @@ From WG Require Import Algo.HyperBall.
 From WG Require Import Split.Model.
 From WG Require Import Split.ArcList.
 From WG Require Import Algo.Scc.
+From WG Require Import Algo.Llp.
 
 Extraction Language OCaml.
 
@@ -141,4 +142,17 @@ Extraction "model.ml"
   non_increasing
   same_partitionb
   tarjan_early
+  llp_combine
+  llp_combine_labels
+  labels_to_ranks
+  invert_permutation
+  permute_graph
+  lp_final
+  check_lt
+  check_perm
+  check_dense
+  check_refinement
+  check_monotone
+  check_inverse
+  check_iso
 .
